@@ -724,9 +724,9 @@ class DFA:
             return True
         return False
 
-    def dfs(self):
+    def dfs(self, start=None):
         """
-        Construct a dfs-order traversal of the DFA
+        Construct a dfs-order traversal of the DFA (from its starting state unless another one is given)
         """
 
         visited = set()
@@ -756,7 +756,7 @@ class DFA:
                 if use_real:
                     yield from aux(t.target)
 
-        yield from aux(self.starting_state)
+        yield from aux(self.starting_state if start is None else start)
 
     def error_handling_transitions(self, include_states=False):
         """
@@ -5095,6 +5095,12 @@ class DfaCompileCtx:
         if not ProgramData.do(ProgramFlag.REMOVE_INACCESIBLE_STATES):
             return 0
         accessible = set(self.dfa.dfs())
+        # The start actions run in the start function, outside of any transition; what they can redirect to (running out of space
+        # in an append at the very beginning of the parser) is reachable as well.
+        for action in self.start_actions:
+            for target in action.get_target_override_targets():
+                if target not in accessible:
+                    accessible.update(self.dfa.dfs(target))
         mod = 0
         for i in self.dfa.states.copy():
             if i not in accessible:
